@@ -897,7 +897,7 @@ def g_solver_opts(r, compute=False):
                 so[k] = gen.choice(r, vals)
     if r.random() < 0.4:
         so.setdefault('tol', float(gen.choice(r, [1e-4, 1e-5, 1e-7])))
-    if r.random() < 0.3:
+    if r.random() < (0.6 if compute else 0.3):
         so['tol_gradient'] = float(gen.choice(r, [1e-2, 1e-3]))
     return so
 
@@ -1571,7 +1571,11 @@ def _one(rec, mode, r, tmp, case, tier, k, i):
             rec.sample(case)
     elif mode == 'sim':
         with Quiet():
-            sim, var = g_sim(r, compute=True)
+            # every second one with misfit (and most of those with gradient):
+            # the state in which emg3d's scratch entry solver_opts['tol']
+            # holds tol_gradient when the simulation is saved
+            sim, var = g_sim(r, compute=True, misfit=bool(i % 2),
+                             gridding='same' if i % 2 else None)
         items = {gen.choice(r, ['simulation', 'sim_1', 'S']):
                  ('sim-computed', var, sim)}
         case['payload'] = describe(items)
